@@ -339,7 +339,7 @@ class AstToDjangoQVisitor(visitor.NodeVisitor):
             # If ALL items in the collection must match, we invert the condition and use NOT EXISTS():
             if subquery_filter:
                 subquery = subquery.filter(~subquery_filter)
-            return Exists(subquery, negated=True)
+            return ~Exists(subquery)
 
         else:
             raise NotImplementedError()
